@@ -50,6 +50,9 @@ func itoIndexArray[V indexValueT](p *Process, params []string, v []V, marshaller
 		}
 		if i < 0 {
 			i += len(v)
+			if i < 0 {
+				return fmt.Errorf("key '%s' is before the start of the array (%d items)", key, len(v))
+			}
 		}
 		if i >= len(v) {
 			return fmt.Errorf("key '%s' greater than number of items in array", key)
